@@ -108,7 +108,12 @@ def classify_diag(d, linemap):
     labels = []
     for s in spans:
         ln = s.get('line_start', 0)
-        info = linemap[ln - 1] if 0 < ln <= len(linemap) else {}
+        info = dict(linemap[ln - 1]) if 0 < ln <= len(linemap) else {}
+        # a clause may span several lines: its tags sit at the end of its last line
+        for l2 in range(ln, min(s.get('line_end', ln), len(linemap)) + 1):
+            t2 = linemap[l2 - 1].get('tags')
+            if t2 and not info.get('tags'):
+                info['tags'] = t2
         lab = s.get('label') or ''
         labels.append(lab)
         ent = dict(line=ln, label=lab, info=info, text=(s.get('text') or [{}])[0].get('text', '').strip())
